@@ -446,6 +446,9 @@ VALUES = {
     'dict_empty': lambda: {},
     'dict_intkeys': lambda: {1: [1], 2: {'x': [2]}},
     'list_mixed': lambda: [1, 'a', None, [2, 'b'], {'k': [3]}],
+    'list_tuples': lambda: [(1, [2]), ([3], {'k': [4]})],
+    'dict_tuples': lambda: {'a': ([1], 2), 'b': ({'c': [3]},)},
+    'tuple_lists': lambda: ([1, 2], [3], {'k': [4]}),
 }
 SCALARS = {
     'one': lambda: 1, 'zero': lambda: 0, 'two': lambda: 2, 'neg': lambda: -1, 'true': lambda: True,
@@ -681,7 +684,7 @@ def sweep_cases(world, rng, tier, focus):
                                 text, data = c
                                 for mode in (True, False):
                                     cases.append(dict(part='sweep', fn=key, target=target, value=vname, text=text,
-                                                      data=data, mode=mode))
+                                                      data=data, mode=mode, opts=pick_opts(rng)))
     for text, shape in HAND:
         for vname in base_values:
             if shape == 'seq' and not vname.startswith(('list', 'set')):
@@ -690,8 +693,13 @@ def sweep_cases(world, rng, tier, focus):
                 continue
             for mode in (True, False):
                 cases.append(dict(part='sweep', fn='<hand>', target='a0', value=vname, text=text,
-                                  data={'a0': VALUES[vname]}, mode=mode))
+                                  data={'a0': VALUES[vname]}, mode=mode, opts=pick_opts(rng)))
     return cases, plans
+
+
+def pick_opts(rng):
+    """(convertTuplesToLists, convertSetsToLists): mostly the defaults"""
+    return [True, False] if rng.random() < 0.6 else rng.choice([[False, False], [True, True], [False, True]])
 
 
 def random_value(rng, adm):
@@ -749,26 +757,39 @@ POOL_DATA = [
 ]
 
 
-def canon_result(r):
-    """comparable form of a finalised result (sets unordered)"""
-    return deep(r, (), [])
+def canon_result(r, loose=False):
+    """comparable form of a finalised result (sets unordered; `loose`: lists too - with convertSetsToLists a set is
+    handed out as a list in the set's unspecified iteration order)"""
+    d = deep(r, (), [])
+    return loosen(d) if loose else d
+
+
+def loosen(d):
+    if isinstance(d, tuple) and d and d[0] == 'list':
+        return ('list', tuple(sorted((loosen(x) for x in d[1]), key=repr)))
+    if isinstance(d, tuple):
+        return tuple(loosen(x) for x in d)
+    if isinstance(d, frozenset):
+        return frozenset(loosen(x) for x in d)
+    return d
 
 
 def run_pool(world, res, rng, tier, hist):
     rounds = 8 if tier == 'quick' else 40
     for rd in range(rounds):
         mode = bool(rd % 2)
+        t2l, s2l = pick_opts(rng)
         hv = [1, [2, 3]]
         shared = host_chain(world.root, hv)
         texts = rng.sample(POOL, 12 if tier == 'quick' else 25)
         stmts = {}
         for t in texts:
             try:
-                stmts[t] = world.engine(conv_in=mode)(t)       # one parse per statement, reused below
+                stmts[t] = world.engine(conv_in=mode, t2l=t2l, s2l=s2l)(t)       # one parse per statement, reused below
             except Exception:   # noqa
                 pass
         docs = [mk() for mk in POOL_DATA]       # host documents that live across evaluations
-        fresh_engine = yaql.YaqlFactory().create(options=dict(world.engine(conv_in=mode).options))
+        fresh_engine = yaql.YaqlFactory().create(options=dict(world.engine(conv_in=mode, t2l=t2l, s2l=s2l).options))
         objs = ctx_objects(shared)
         cb = ctx_snapshot(objs, world.lib_ids)
         steps = []
@@ -799,7 +820,8 @@ def run_pool(world, res, rng, tier, hist):
             # reference: a fresh parse by a fresh engine on a fresh chain with an equal, newly built document
             ref_data = copy.deepcopy(data)
             ref = world.run(fresh_engine(t), ref_data, host_chain(world.root, [1, [2, 3]]))
-            same = (out[0] == ref[0]) and (out[1] == ref[1] if out[0] == 'err' else canon_result(out[1]) == canon_result(ref[1]))
+            same = (out[0] == ref[0]) and (out[1] == ref[1] if out[0] == 'err' else
+                                           canon_result(out[1], s2l) == canon_result(ref[1], s2l))
             if not same and 'Timeout' not in (out[1], ref[1]):
                 res.fail('oracle', 'reuse-differs',
                          'pool: re-evaluating %r (data %s) on the shared context gives %s, a fresh parse on a fresh '
@@ -1347,7 +1369,9 @@ def replay_case(world, drv, res, case, hist):
     part = case.get('part')
     if part == 'sweep':
         data = eval(case['data'], dict(PYNS))     # noqa: S307 - our own replay file
-        out, fails = observe(world, case['text'], data, case['mode'], bare=case.get('bare', False))
+        o = case.get('opts') or [True, False]
+        out, fails = observe(world, case['text'], data, case['mode'], bare=case.get('bare', False),
+                             eopts=dict(t2l=o[0], s2l=o[1]))
         for key, what in fails:
             res.fail('oracle', key, '%s (expression %s, yaql.convertInputData=%s, data %s)' % (
                 what, case['text'], case['mode'], case['data']), case)
@@ -1409,7 +1433,9 @@ def run(env, res):
         data = materialise(c['data'])
         h0 = world.hits.get(c['fn'], 0)
         bare = (i % 7 == 3)
-        out, fails = observe(world, c['text'], data, c['mode'], bare=bare)
+        eopts = dict(t2l=c['opts'][0], s2l=c['opts'][1])
+        out, fails = observe(world, c['text'], data, c['mode'], bare=bare, eopts=eopts)
+        hist['sweep-opts-t2l=%s,s2l=%s' % tuple(c['opts'])] = hist.get('sweep-opts-t2l=%s,s2l=%s' % tuple(c['opts']), 0) + 1
         done += 1
         if bare:
             hist['sweep-on-context-without-finalize'] = hist.get('sweep-on-context-without-finalize', 0) + 1
@@ -1426,8 +1452,10 @@ def run(env, res):
             if first_fail is None:
                 first_fail = True
             res.fail('oracle', key, '%s: %s (expression %s, yaql.convertInputData=%s, data %s)' % (
-                c['fn'], what, c['text'], c['mode'], pyrepr(materialise(c['data']))),
-                dict(part='sweep', fn=c['fn'], text=c['text'], mode=c['mode'], bare=bare, data=pyrepr(materialise(c['data']))))
+                c['fn'], what, c['text'], c['mode'], pyrepr(materialise(c['data']))) + (
+                    '' if c['opts'] == [True, False] else ' [convertTuplesToLists=%s convertSetsToLists=%s]' % tuple(c['opts'])),
+                dict(part='sweep', fn=c['fn'], text=c['text'], mode=c['mode'], bare=bare, opts=c['opts'],
+                     data=pyrepr(materialise(c['data']))))
         if len(res.failures) >= 8:
             break
     fns = {k for k in world.reg}
